@@ -242,6 +242,8 @@ def reject_cases(seed=0):
         for tag, fn in (("self-intersecting polygon", lambda: tdgl.Polygon("bow", points=[(0, 0), (1, 1), (1, 0), (0, 1)])),
                         ("duplicate terminal names", lambda: tdgl.Device("x", layer=layer, film=tdgl.Polygon("f", points=box(2, 2)),
                                                                          terminals=[tdgl.Polygon("t", points=box(0.1, 2)), tdgl.Polygon("t", points=box(0.1, 2))])),
+                        ("unnamed terminal", lambda: tdgl.Device("x", layer=layer, film=tdgl.Polygon("f", points=box(2, 2)),
+                                                                 terminals=[tdgl.Polygon("t", points=box(0.1, 2)).translate(dx=-1), tdgl.Polygon(points=box(0.1, 2)).translate(dx=1)])),
                         ("probe outside film", lambda: tdgl.Device("x", layer=layer, film=tdgl.Polygon("f", points=box(2, 2)), probe_points=[(5, 5), (0, 0)]))):
             n += 1
             try:
